@@ -21,6 +21,7 @@ import numpy as np
 
 from harness import c13_gen as G
 from harness import c13_rt as R
+from harness import c13_streams as S
 from harness import c13_tables as T
 from harness import common
 from harness.common import clist, cstr
@@ -87,7 +88,7 @@ def analyze(proto):
     info = {"is_model": isinstance(proto, onnx.ModelProto), "pure_for": 0, "for_with_cond": 0, "no_stop": 0, "while": 0,
             "swap": 0, "ifs": 0, "nodes": 0, "depth": 0, "inlinable_nodes": set(), "inlinable_inits": set(),
             "nonfinite_inlinable": False, "nonfinite_any": False, "sources": set(), "large_inits": 0, "inits": 0,
-            "optional_inputs": 0, "optional_outputs": 0, "attr_params": 0, "node_names": 0}
+            "optional_inputs": 0, "optional_outputs": 0, "attr_params": 0, "node_names": 0, "empty_inlinable": False}
 
     def graph(g, depth):
         info["depth"] = max(info["depth"], depth)
@@ -100,6 +101,7 @@ def analyze(proto):
                 info["large_inits"] += 1
             if _tensor_inlinable(init):
                 info["inlinable_inits"].add(init.name)
+                info["empty_inlinable"] |= list(init.dims) == [0]
                 if _tensor_nonfinite(init):
                     info["nonfinite_inlinable"] = True
             if _tensor_nonfinite(init):
@@ -117,6 +119,7 @@ def analyze(proto):
                 t = n.attribute[0].t
                 if _tensor_inlinable(t):
                     info["inlinable_nodes"].add(n.output[0])
+                    info["empty_inlinable"] |= list(t.dims) == [0]
                     if _tensor_nonfinite(t):
                         info["nonfinite_inlinable"] = True
                 if _tensor_nonfinite(t):
@@ -192,6 +195,9 @@ KNOWN_CLASSES = {
         "inline_const=True drops a Constant node whose output is later the right-hand side of an emitted assignment / return / range() (Unbound name)",
     "C13:inline_const:initializer-renamed":
         "inline_const=True records an inlined initializer under its translated name but looks it up under the ONNX name: references stay unbound when the two differ",
+    "C13:inline_const:empty-list-literal":
+        "inline_const=True prints a FLOAT/INT64 constant of shape [0] as the literal [], which the converter cannot type "
+        "(dtype must be specified when value is an empty sequence)",
     "C13:use_operators:no-opset-call-left":
         "use_operators=True on a function all of whose nodes print as Python operators: no opset is mentioned and @script() has no default_opset",
     "C13:names:collision-after-cleanup:silently-merged":
@@ -238,6 +244,8 @@ def classify(case, info, collide, opts, out, cleanup):
                     return "C13:inline_const:constant-used-as-assignment-source"
     if stage in ("exec", "to_proto") and opts["inline_const"] and info["nonfinite_inlinable"] and re.search(r"Unsupported expression type", msg):
         return "C13:inline_const:non-finite-literal"  # [1.0, nan] is not a constant expression either
+    if stage in ("exec", "to_proto") and opts["inline_const"] and info["empty_inlinable"] and "empty sequence" in msg:
+        return "C13:inline_const:empty-list-literal"
     if stage in ("exec", "to_proto") and exc == "TranslationError" and "Instruction break" in msg and info["for_with_cond"]:
         return "C13:loop:trip-count-and-condition:not-reconvertible"
     if stage in ("exec", "to_proto") and exc == "RuntimeError" and "default_opset must be specified" in msg and opts["use_operators"]:
@@ -343,6 +351,83 @@ def corr_names(ctx, tab):
         ctx.tie_broken("correspondence", "short-names", f"_make_short_name_mapper on {seqs[i]!r} gave {obs[i]!r}, model differs")
     ctx.obligation(f"correspondence: real _make_short_name_mapper = Export/Cleanup.v `short_rename_all` on {nseq} name sequences", not bad)
     ctx.cover(cleanup_strings=len(names), cleanup_disagreements=bad_total, short_name_sequences=nseq)
+
+
+def corr_const_repr(ctx, workdir):
+    """real `_get_const_repr` vs Export/ConstRepr.v `const_repr`, and the converter's reading of the printed literal vs
+    `literal_dims` / `literal_dtype` (the two halves of C13_inlined_literal_reenters_unchanged)."""
+    from onnxscript.backend import onnx_export as E
+    from harness.common import cbool, cnat, cz
+    samples = S.const_repr_samples(ctx.rng, 400 if ctx.tier == "quick" else 1500)
+    env = {"nan": float("nan"), "inf": float("inf"), "__builtins__": {}}
+    rows, texts = [], []
+
+    def lit(value, tag):
+        if isinstance(value, list):
+            t = ("FLOAT" if any(isinstance(v, float) for v in value) else "INT64") if value else tag
+            return f"(Some (LList {t} {clist([cz(S.f32_bits(v)) if t == 'FLOAT' else cz(v) for v in value])}))", t, [len(value)]
+        t = "FLOAT" if isinstance(value, float) else "INT64"
+        return f"(Some (LScalar {t} {cz(S.f32_bits(value)) if t == 'FLOAT' else cz(value)}))", t, []
+
+    for node, tag, dims, payload in samples:
+        text = E._get_const_repr(node)
+        ctx.case(("const_repr", tag, len(dims), dims[0] if len(dims) == 1 else -1, text is None))
+        if text is None:
+            obs = "None"
+        else:
+            try:
+                value = eval(text, dict(env))  # noqa: S307 -- the exporter's own literal text, evaluated without builtins
+                if not isinstance(value, (int, float, list)) or isinstance(value, bool):
+                    raise TypeError(type(value).__name__)
+                obs, t, d = lit(value, tag)
+                if not (isinstance(value, list) and not value):
+                    texts.append((text, obs[6:-1], tuple(d), t))
+            except Exception as e:  # noqa: BLE001
+                ctx.violation("C13:inline_const:literal-text-not-a-python-literal", f"_get_const_repr printed {text!r} ({type(e).__name__})",
+                              {"dtype": tag, "dims": dims, "payload": payload, "text": text})
+                obs = "None"
+        dt = "OTHER" if tag == "NOTENSOR" else tag
+        rows.append(f"({cbool(tag != 'NOTENSOR')}, {dt}, {clist(dims, cnat)}, {clist(payload, cz)}, {obs})")
+    ok, vals, raw = ctx.coq_eval(["OV.Export.ConstRepr"], f"Definition cases : list rcase := {clist(rows)}.\nEval vm_compute in (disagreeing_repr 0 cases).", name="constrepr")
+    if not ok or not vals:
+        ctx.tie_broken("correspondence", "const_repr:model-evaluation", raw[-800:])
+        return
+    bad = common.parse_nat_list(vals[0])
+    for i in bad[:10]:
+        node, tag, dims, payload = samples[i]
+        ctx.tie_broken("correspondence", "const_repr", f"_get_const_repr on {tag}{dims} {payload[:5]} printed {E._get_const_repr(node)!r}, model differs")
+    ctx.obligation(f"correspondence: real _get_const_repr = Export/ConstRepr.v `const_repr` on {len(samples)} Constant nodes", not bad)
+
+    # re-entry: each distinct printed literal is compiled by the real converter; the Constant it builds has literal_dims / literal_dtype
+    uniq = sorted({t for t in texts}, key=lambda t: (t[0], t[1]))[:60]
+    src = "from onnxscript import script, FLOAT\nfrom onnxscript.onnx_opset import opset18 as op\n"
+    for k, (text, _, _, _) in enumerate(uniq):
+        src += f"\n@script()\ndef lit{k}(x: FLOAT[3]):\n    return op.Identity({text})\n"
+    try:
+        mod, modname = R.load_module(src, workdir)
+    except Exception as e:  # noqa: BLE001
+        ctx.tie_broken("correspondence", "literal-reentry", f"{type(e).__name__}: {str(e)[:300]}")
+        return
+    rows = []
+    for k, (text, coq_lit, _, _) in enumerate(uniq):
+        fp = getattr(mod, f"lit{k}").to_function_proto()
+        ts = [n.attribute[0].t for n in fp.node if n.op_type == "Constant"]
+        if len(ts) != 1:
+            ctx.tie_broken("correspondence", "literal-reentry", f"literal {text!r}: {len(ts)} Constant nodes")
+            continue
+        dtn = {1: "FLOAT", 7: "INT64"}.get(ts[0].data_type, "OTHER")
+        rows.append(f"({coq_lit}, {clist(list(ts[0].dims), cnat)}, {dtn})")
+        ctx.case(("literal-reentry", dtn, len(ts[0].dims)))
+    R.unload(modname)
+    ok, vals, raw = ctx.coq_eval(["OV.Export.ConstRepr"], f"Definition cases : list ecase := {clist(rows)}.\nEval vm_compute in (disagreeing_reentry 0 cases).", name="reentry")
+    if not ok or not vals:
+        ctx.tie_broken("correspondence", "literal-reentry:model-evaluation", raw[-800:])
+        return
+    bad2 = common.parse_nat_list(vals[0])
+    for i in bad2[:10]:
+        ctx.tie_broken("correspondence", "literal-reentry", f"literal {uniq[i][0]!r} is read back with another shape/type than the model says")
+    ctx.obligation(f"correspondence: the converter reads {len(rows)} printed literals back with the rank and type of Export/ConstRepr.v", not bad2)
+    ctx.cover(const_repr_samples=len(samples), literal_reentry_cases=len(rows))
 
 
 def check_keyword_table(ctx, tab, workdir, cleanup):
@@ -455,7 +540,9 @@ def run_cases(ctx, cases, workdir, cleanup, stats):
             stats["unrunnable_originals"] += 1
             stats.setdefault("unrunnable_example", f"{c['id']}: {type(e).__name__}: {str(e)[:200]}")
             continue
-        if ctx.tier == "thorough":
+        if c.get("opts") is not None:
+            opt_list = list(c["opts"])
+        elif ctx.tier == "thorough":
             opt_list = list(ALL_OPTS)
         else:
             others = ALL_OPTS[1:]
@@ -612,15 +699,37 @@ def run(ctx):
     workdir = tempfile.mkdtemp(prefix="c13-", dir=ctx.scratch)
 
     corr_names(ctx, tab)
+    corr_const_repr(ctx, workdir)
     check_keyword_table(ctx, tab, workdir, cleanup)
 
     quick = ctx.tier == "quick"
-    models, rej1 = G.random_models(ctx.rng, 95 if quick else 180)
+    models, rej1 = G.random_models(ctx.rng, 76 if quick else 180)
     funcs, rej2 = G.random_functions(ctx.rng, 20 if quick else 40)
     scripts, modname = G.script_cases(workdir, R.load_module)
     hand = G.attr_conflict_cases()
-    cases = scripts + hand + models + funcs
-    stats["generated_invalid_skipped"] = rej1 + rej2
+    # attribute parameters referenced inside nested bodies, value names <attr>, <attr>_0, <attr>_1 at every level:
+    # functions never use skip_initializers and rename works on FunctionProtos, so all 8 tuples run on the unmodified tree
+    attrs, rej3 = S.attr_nesting_cases(ctx.rng, 20 if quick else 96)
+    fn_opts = [o for o in ALL_OPTS if not o["skip_initializers"]]
+    for c in attrs:
+        c["opts"] = fn_opts if not quick else [fn_opts[0], [o for o in fn_opts if o["rename"] and not o["use_operators"] and not o["inline_const"]][0]] \
+            + ctx.rng.sample([o for o in fn_opts[1:] if o["use_operators"] or o["inline_const"]], 2)
+    # small constants in rank-sensitive operand positions: rename / skip_initializers are masked on models of the
+    # unmodified tree, so only use_operators x inline_const vary
+    ranks, rej4 = S.rank_const_cases(ctx.rng)
+    m_opts = [dict(zip(OPT_NAMES, (False, u, i, False))) for i in (True, False) for u in (False, True)]
+    for k, c in enumerate(ranks):
+        if quick:  # Constant-node form: always with inline_const; initializer form: a third of the cases
+            if c["id"].endswith(":node"):
+                c["opts"] = [m_opts[0], m_opts[1 + k % 3]] if k % 4 == 0 else [m_opts[0]]
+            else:
+                c["opts"] = [m_opts[0]] if k % 3 == 1 else []
+        else:
+            c["opts"] = m_opts
+    ranks = [c for c in ranks if c["opts"]]
+    cases = scripts + hand + attrs + ranks + models + funcs
+    stats["generated_invalid_skipped"] = rej1 + rej2 + rej3
+    stats["rank_const_illegal_combinations"] = rej4
     run_cases(ctx, cases, workdir, cleanup, stats)
     R.unload(modname)
     probes(ctx, workdir, cleanup, stats)
@@ -632,6 +741,7 @@ def run(ctx):
                    f"rejected {rej1 + rej2}, unrunnable {stats['unrunnable_originals']} {stats.get('unrunnable_example', '')}")
     ctx.obligation("oracle health: at least a fifth of the round trips complete and agree (the check is not blind)",
                    stats["ok"] >= 0.2 * max(1, stats["runs"]), f"{stats['ok']} of {stats['runs']}")
+    ctx.cover(attr_nesting_functions=len(attrs), rank_const_models=len(ranks), rank_const_illegal_combinations=rej4)
     ctx.cover(models=len(models), functions=len(funcs), script_cases=len(scripts), hand_cases=len(hand),
               round_trips=stats["runs"], round_trips_equal=stats["ok"], by_option=stats["by_option"], equal_by_option=stats["ok_by_option"],
               failures_by_class=stats["failures"], models_with_name_collisions=stats["models_with_collisions"],
@@ -641,4 +751,4 @@ def run(ctx):
               not_modelled="attribute pretty-printing, _handle_attrname_conflict, use_operators/inline_const text (observed through execution only); "
                            "If nodes whose outputs are all unused are not generated (the converter refuses them)")
     if ctx.tier == "thorough":
-        ctx.coqchk(["Props.C13", "Props.C13_unssa"])
+        ctx.coqchk(["Props.C13", "Props.C13_unssa", "Props.C13_constrepr"])
